@@ -57,8 +57,10 @@ class Gen:
 
     def _pick_up(self, pred=None):
         r = self.r
+        if pred is None:
+            pred = lambda k: k not in ('dict', 'opaque')       # dict-valued elements only where an op asks for them
         cands = [n['id'] for n in self.nodes if n['op'] not in ('sink', 'sink_flush')
-                 and (pred is None or pred(self.kind[n['id']]))]
+                 and pred(self.kind[n['id']])]
         if not cands:
             return None
         # bias towards recent nodes (chains) but allow fan-out anywhere
@@ -67,11 +69,14 @@ class Gen:
         return r.choice(cands)
 
     def _multi_cands(self):
-        return [n['id'] for n in self.nodes if n['op'] not in ('sink', 'sink_flush')]
+        return [n['id'] for n in self.nodes if n['op'] not in ('sink', 'sink_flush')
+                and self.kind[n['id']] not in ('dict', 'opaque')]
 
     def _key_param(self, kind, allow_none=True):
         r = self.r
         opts = ['fsum', 'mod2', 'mod3', 'ident', 'size']
+        if kind == 'dict':
+            return {'index': 'a'} if r.random() < 0.6 else r.choice(['fsum', 'mod2'])
         if _is_tup(kind) and _minlen(kind) >= 1 and r.random() < 0.3:
             return {'index': r.randrange(_minlen(kind))}
         if allow_none and r.random() < 0.35:
@@ -83,10 +88,12 @@ class Gen:
         r = self.r
         K = self.kind
         if op == 'map':
-            u = self._pick_up()
+            u = self._pick_up(lambda k: k != 'dict')
             f = r.choice(list(F.MAPS))
             mk = F.MAP_KIND[f]
             kind = K[u] if mk == 'same' else (('tup', mk[1] or 0) if isinstance(mk, tuple) else mk)
+            if f == 'addk':
+                return self._new('map', [u], kind, f=f, args=[r.randrange(3)], kwargs={'m': r.choice([1, 2])})
             return self._new('map', [u], kind, f=f)
         if op == 'starmap':
             u = self._pick_up(_is_tup)
@@ -97,8 +104,13 @@ class Gen:
             kind = 'int' if f == 'sm' else ('any' if f == 'first' else ('tup', _minlen(K[u]) + len(args)))
             return self._new('starmap', [u], kind, f=f, args=args)
         if op == 'filter':
-            u = self._pick_up()
-            return self._new('filter', [u], K[u], p=r.choice(list(F.PREDS)))
+            u = self._pick_up(lambda k: k != 'opaque')
+            pr = r.choice(list(F.PREDS))
+            if pr == 'gtk':
+                return self._new('filter', [u], K[u], p=pr, args=[r.randrange(3)], kwargs={'strict': r.random() < 0.5})
+            if pr != 'none' and r.random() < 0.2:
+                return self._new('filter', [u], K[u], p=pr, negate=True)
+            return self._new('filter', [u], K[u], p=pr)
         if op == 'accumulate':
             u = self._pick_up()
             f = r.choice(list(F.ACCS))
@@ -121,7 +133,7 @@ class Gen:
                 kind = 'any'       # first element passes through unchanged
             return self._new('accumulate', [u], kind, **params)
         if op == 'slice':
-            u = self._pick_up()
+            u = self._pick_up(lambda k: k != 'opaque')
             start = r.choice([None, 0, 1, 2, 3])
             end = r.choice([None, None, 0, 1, 2, 4, 7, 12])
             step = r.choice([None, 1, 2, 3])
@@ -129,14 +141,14 @@ class Gen:
         if op == 'partition':
             if not self.partition_ok:
                 return None
-            u = self._pick_up()
+            u = self._pick_up(lambda k: k != 'opaque')
             n = r.choice([1, 1, 2, 2, 3, 4])
-            return self._new('partition', [u], ('tup', n), n=n, key=self._key_param(K[u]))
+            return self._new('partition', [u], 'opaque' if K[u] == 'dict' else ('tup', n), n=n, key=self._key_param(K[u]))
         if op == 'partition_unique':
-            u = self._pick_up()
+            u = self._pick_up(lambda k: k != 'opaque')
             n = r.choice([1, 2, 2, 3])
-            key = self._key_param(K[u], allow_none=False) if r.random() < 0.7 else 'ident'
-            return self._new('partition_unique', [u], ('tup', n), n=n, key=key,
+            key = self._key_param(K[u], allow_none=False) if (r.random() < 0.7 or K[u] == 'dict') else 'ident'
+            return self._new('partition_unique', [u], 'opaque' if K[u] == 'dict' else ('tup', n), n=n, key=key,
                              keep=r.choice(['first', 'last']))
         if op == 'sliding_window':
             u = self._pick_up()
@@ -145,7 +157,13 @@ class Gen:
             return self._new('sliding_window', [u], ('tup', 1 if partial else n), n=n,
                              partial=partial)
         if op == 'unique':
-            u = self._pick_up()
+            u = self._pick_up(lambda k: k != 'opaque')
+            if K[u] == 'dict':
+                # dicts are unhashable: either a key function, or the list-based history
+                if r.random() < 0.5:
+                    return self._new('unique', [u], K[u], maxsize=r.choice([None, 1, 2, 3]), key='ident', hashable=False)
+                return self._new('unique', [u], K[u], maxsize=r.choice([None, None, 1, 2, 3]),
+                                 key=r.choice(['fsum', 'mod3', 'mod2']), hashable=r.random() < 0.7)
             return self._new('unique', [u], K[u], maxsize=r.choice([None, None, 1, 2, 3]),
                              key=r.choice(['ident', 'ident', 'fsum', 'mod3', 'mod2']),
                              hashable=r.random() < 0.7)
@@ -155,6 +173,11 @@ class Gen:
                 return None
             return self._new('flatten', [u], 'any')
         if op == 'pluck':
+            d = self._pick_up(lambda k: k == 'dict')
+            if d is not None and r.random() < 0.6:
+                if r.random() < 0.5:
+                    return self._new('pluck', [d], 'int', pick='a')
+                return self._new('pluck', [d], ('tup', 2), pick=['a', 'b'])
             u = self._pick_up(lambda k: _is_tup(k) and _minlen(k) >= 1)
             if u is None:
                 return None
@@ -365,12 +388,16 @@ def build_node(spec, S, calls, fn_wrap=None, source_kwargs=None):
         if op == 'source':
             n = Stream(**skw)
         elif op == 'map':
-            n = ups[0].map(fw(nid, 'map', F.MAPS[spec['f']]), *spec.get('args', ()))
+            n = ups[0].map(fw(nid, 'map', F.MAPS[spec['f']]), *spec.get('args', ()), **spec.get('kwargs', {}))
         elif op == 'starmap':
             n = ups[0].starmap(fw(nid, 'starmap', F.STARS[spec['f']]), *spec.get('args', ()))
         elif op == 'filter':
             p = F.PREDS[spec['p']]
-            n = ups[0].filter(fw(nid, 'filter', p) if p is not None else None)
+            if spec.get('negate'):
+                n = ups[0].remove(fw(nid, 'filter', p))
+            else:
+                n = ups[0].filter(fw(nid, 'filter', p) if p is not None else None, *spec.get('args', ()),
+                                  **spec.get('kwargs', {}))
         elif op == 'accumulate':
             f, rs = F.ACCS[spec['f']]
             kw = {}
